@@ -43,7 +43,24 @@ def render(c, rnd):
         cmd = "alias"
     else:
         cmd = "alias nosuch"
-    reds = [spell(r, rnd) for r in c["rs"]]
+    # several input redirections on one command: every `<` after the first names another file with other content, every `<<<`
+    # another word - the last one applied is the command's stdin
+    reds = []
+    nin = nhere = 0
+    c["_stdin_text"] = None
+    for r in c["rs"]:
+        if r["k"] == "in" and r.get("f") == "f1":
+            nin += 1
+            name = "f1" if nin % 2 == 1 else "f1b"
+            reds.append("<" + rnd.choice(["", " "]) + name)
+            c["_stdin_text"] = {"f1": "old\n", "f1b": "old2\n"}[name]
+        elif r["k"] == "here":
+            nhere += 1
+            w = "word" if nhere == 1 else "word%d" % nhere
+            reds.append("<<<" + rnd.choice(["", " "]) + w)
+            c["_stdin_text"] = w + "\n"
+        else:
+            reds.append(spell(r, rnd))
     c["_attached_in"] = any(x.startswith("<") and " " not in x for x in reds)
     full = " ".join([cmd] + reds)
     # further stages in front (they neither read nor are read: `vio Q`), so that the redirected command also is the third or
@@ -70,7 +87,10 @@ def text_of(tok, c, ref):
 def judge(rep, c, line, res, ref):
     feat = {"kind": c["kind"], "pos": c["pos"], "ops": [r["k"] for r in c["rs"]], "ran": c["ran"],
             "targets": sorted({r.get("f", "") for r in c["rs"]}),
-            "builtin_only": c["kind"] != "ext" and c["pos"] == "only", "attached_in": c.get("_attached_in", False)}
+            "builtin_only": c["kind"] != "ext" and c["pos"] == "only", "attached_in": c.get("_attached_in", False),
+            # an input redirection whose file is missing, followed by another input redirection on the same command
+            "superseded_missing_input": any(r["k"] == "in" and r.get("f") == "nofile" and any(q["k"] in ("in", "here") for q in c["rs"][i + 1:])
+                                            for i, r in enumerate(c["rs"]))}
     case = {"case": c, "text": line, "got": {k: res.get(k) for k in ("status", "stdout", "stderr", "files")},
             "log": res.get("log")}
 
@@ -91,7 +111,7 @@ def judge(rep, c, line, res, ref):
         if not c["ran"] and a:
             return bad("ran-despite-failed-open", "a redirection target cannot be opened but the command ran")
         if c["ran"] and c["stdin"] in ("HERE", "f1", "PIPE"):
-            want = {"HERE": "word\n", "f1": "old\n", "PIPE": "o:P\n"}[c["stdin"]]
+            want = {"HERE": c.get("_stdin_text") or "word\n", "f1": c.get("_stdin_text") or "old\n", "PIPE": "o:P\n"}[c["stdin"]]
             if a[0].get("stdin") != want:
                 return bad("stdin", "stdin was %r, expected %r" % (a[0].get("stdin"), want))
     # status
@@ -122,7 +142,7 @@ def judge(rep, c, line, res, ref):
                 got = "".join(ln for ln in got.splitlines(True) if not ln.startswith("cicada: "))
             if got not in ok:
                 return bad("file-content", "%s contains %r although the command did not run (allowed %r)" % (f, got, ok))
-    extra = sorted(k for k in files if k not in ("f1", "f2"))
+    extra = sorted(k for k in files if k not in ("f1", "f2", "f1b"))
     if extra:
         return bad("stray-file", "unexpected files created: %s" % extra)
     # streams of the whole line (stages of one pipeline may interleave: compare as sorted lines)
@@ -185,7 +205,7 @@ def runner(rep, tier, seed, replay):
     if replay:
         with open(replay) as f:
             c = json.load(f)["case"]
-        res = run_cases([{"entry": "c", "text": c["text"], "files": {"f1": "old\n"}, "timeout": 20}])[0]
+        res = run_cases([{"entry": "c", "text": c["text"], "files": {"f1": "old\n", "f1b": "old2\n"}, "timeout": 20}])[0]
         judge(rep, c["case"], c["text"], res, ref)
         rep.cov["evaluations"] = 1
         return rep.finish(rule="replay of one recorded case")
@@ -204,8 +224,8 @@ def runner(rep, tier, seed, replay):
     log("[C04] %d cases from TLC" % len(cases))
     lines = [render(c, random.Random(stable_hash(json.dumps(c, sort_keys=True)) ^ seed)) for c in cases]
     # the same lines as the head of `if` / `else if` / `while` (separate code path: scripting.rs::run_exp_test_br)
-    structure.check_heads(rep, [{"entry": "c", "text": ln, "files": {"f1": "old\n"}} for ln in lines], random.Random(seed), 150 if tier == "quick" else 1500, "C04")
-    results = run_cases([{"entry": "c", "text": ln, "files": {"f1": "old\n"}, "timeout": 20} for ln in lines])
+    structure.check_heads(rep, [{"entry": "c", "text": ln, "files": {"f1": "old\n", "f1b": "old2\n"}} for ln in lines], random.Random(seed), 150 if tier == "quick" else 1500, "C04")
+    results = run_cases([{"entry": "c", "text": ln, "files": {"f1": "old\n", "f1b": "old2\n"}, "timeout": 20} for ln in lines])
     distinct = set()
     for c, ln, res in zip(cases, lines, results):
         if "tool_error" in res:
